@@ -63,6 +63,15 @@ def gen(tier, seed):
         # N4: simple and nested values of the same component coexist
         if sym in TX.PAREN:
             cases.append(("N4", [p for p in base() if p[1] != sym] + [('comp', sym, '', '', ('leaf', tg.word())), ('nested', sym, '', '', simple_stmt(tg, rng, 2))]))
+    # N5: two braced combinations on one level: of the same type (implicit conjunction of the two) and of two different types
+    #     (each under its own component), every ordered pair of symbols in the thorough tier, a rotating sample otherwise
+    pairs2 = [(a, b) for a in syms for b in syms]
+    if tier == "quick":
+        pairs2 = [pairs2[(seed * 7 + 5 * k) % len(pairs2)] for k in range(10)] + [(s_, s_) for s_ in syms]
+    two = list(ntree_shapes(2))
+    for a, b in pairs2:
+        b0 = [p for p in base() if TX.SYM_FIELD[p[1]] not in (TX.SYM_FIELD.get(a), TX.SYM_FIELD.get(b))]
+        cases.append(("N5", b0 + [('ncombo', a, fill_ntree(rng.choice(two), a, tg, rng)), ('ncombo', b, fill_ntree(rng.choice(two), b, tg, rng))]))
     # S: random statements with nesting (depth <= 3), nested statements containing combinations and nested statements
     for _ in range(60 if tier == "quick" else 1500):
         cases.append(("S", tg.stmt(rng.choice([1, 2, 3]), maxleaves=2, allow_pairs=False, nest_syms=TX.NEST_NONPROP)))
